@@ -8,6 +8,7 @@ package c10
 
 import (
 	"context"
+	"runtime"
 	"fmt"
 	"math/rand"
 	"strings"
@@ -79,6 +80,7 @@ func runSchedule(b *tv.Batch, prog program, seed int64) result {
 	chans := map[int]chan int{}
 	subBeforeClose := map[int]bool{}
 	var closeCalled atomic.Bool
+	var openRacing []int // subscribers (Subscribe overlapping Close) whose channel was open when a Close returned
 	stop := make(chan struct{})
 	var draining atomic.Bool
 	type sub struct {
@@ -211,6 +213,22 @@ func runSchedule(b *tv.Batch, prog program, seed int64) result {
 						}
 					}
 					smu.Unlock()
+					// subscribers whose Subscribe overlapped Close: open now may mean "dropped" (legit) or "accepted, not yet closed"
+					smu.Lock()
+					for s, ch := range chans {
+						if subBeforeClose[s] {
+							continue
+						}
+						select {
+						case _, ok := <-ch:
+							if ok {
+								openRacing = append(openRacing, s)
+							}
+						default:
+							openRacing = append(openRacing, s)
+						}
+					}
+					smu.Unlock()
 					rec.ev("close_ret", tv.M{"open": open})
 				})
 			}
@@ -291,6 +309,17 @@ func runSchedule(b *tv.Batch, prog program, seed int64) result {
 		res.stuck = inflight()
 		rec.mu.Lock()
 		b.Ev("stuck", tv.M{"n": res.stuck})
+		smu.Lock()
+		for _, s := range openRacing {
+			select {
+			case _, ok := <-chans[s]:
+				if !ok {
+					b.Ev("lateclosed", tv.M{"s": s}) // it was accepted after all, and closed only after Close had returned
+				}
+			default:
+			}
+		}
+		smu.Unlock()
 		rec.mu.Unlock()
 	}
 	// tear down
@@ -308,6 +337,68 @@ func runSchedule(b *tv.Batch, prog program, seed int64) result {
 	case <-time.After(2 * time.Second):
 	}
 	return res
+}
+
+// stressSubscribeVsClose: ungated rounds of Subscribe racing Close (there is no decision point inside Subscribe's
+// critical section to gate).  If the subscriber's channel is open when Close returns but gets closed afterwards, the
+// subscriber had been accepted and Close returned too early.
+func stressSubscribeVsClose(b *tv.Batch, rounds int) {
+	for r := 0; r < rounds; r++ {
+		bc := batcher.New[string, int](interval * tick)
+		bc.WithClock(clocktesting.NewFakeClock(base))
+		b.Start(tv.M{"scenario": "ungated Subscribe vs Close", "round": r})
+		ch := make(chan int)
+		var wg sync.WaitGroup
+		start := make(chan struct{})
+		wg.Add(2)
+		openAtRet := false
+		b.Ev("sub_call", tv.M{"s": 1, "kind": "stalled"})
+		b.Ev("close_call", nil)
+		go func() {
+			defer wg.Done()
+			<-start
+			for i := 0; i < r%7; i++ {
+				runtime.Gosched()
+			}
+			bc.Subscribe(context.Background(), ch)
+		}()
+		go func() {
+			defer wg.Done()
+			<-start
+			for i := 0; i < (r/7)%7; i++ {
+				runtime.Gosched()
+			}
+			bc.Close()
+			select {
+			case _, ok := <-ch:
+				openAtRet = ok
+			default:
+				openAtRet = true
+			}
+		}()
+		close(start)
+		wg.Wait()
+		b.Ev("sub_ret", tv.M{"s": 1})
+		b.Ev("close_ret", tv.M{"open": []int{}})
+		if openAtRet {
+			deadline := time.Now().Add(20 * time.Millisecond)
+			for time.Now().Before(deadline) {
+				closed := false
+				select {
+				case _, ok := <-ch:
+					closed = !ok
+				default:
+				}
+				if closed {
+					b.Ev("lateclosed", tv.M{"s": 1})
+					break
+				}
+				time.Sleep(100 * time.Microsecond)
+			}
+		}
+		b.Ev("stuck", tv.M{"n": 0})
+		bc.Close()
+	}
 }
 
 func genProgram(rng *rand.Rand) program {
@@ -422,6 +513,8 @@ func TestCheck(t *testing.T) {
 			run(p, rng.Int63())
 		}
 	}
+	sb := &tv.Batch{}
+	stressSubscribeVsClose(sb, ev.Pick(3000, 60000))
 	fmt.Printf("executed %d schedules (%d events), %d could not be driven to the end\n", b.Len(), b.Lines(), inconcl)
 	if inconcl > b.Len()/20 {
 		e.Inconclusive(fmt.Sprintf("%d of %d schedules could not be driven to quiescence", inconcl, b.Len()))
@@ -433,6 +526,10 @@ func TestCheck(t *testing.T) {
 			jb.AppendTrace(b.Trace(r.trace))
 			idx = append(idx, i)
 		}
+	}
+	nGated := jb.Len()
+	for i := 0; i < sb.Len(); i++ {
+		jb.AppendTrace(sb.Trace(i))
 	}
 	rej, res := tv.ValidateChunked(tlc.Opts{Dir: "Batcher", Module: "TraceBatch", Config: "TraceBatch.cfg", Workers: 16, Timeout: ev.Pick(6*time.Minute, 40*time.Minute), HeapMB: 12000}, jb)
 	fmt.Printf("TLC contract validation: ok=%v traces=%d rejected=%d distinct=%d wall=%s %s\n", res.OK, jb.Len(), len(rej), res.Distinct, res.Wall.Round(time.Millisecond), res.What)
@@ -448,6 +545,10 @@ func TestCheck(t *testing.T) {
 		e.Sample(tv.M{"program": progs[i], "schedule": results[i].schedule, "trace": jb.TraceStrings(k)})
 	}
 	for _, r := range rej {
+		if r.Trace >= nGated {
+			e.Violation("Close-returned-while-an-accepted-subscriber-channel-was-still-open", r.Why, tv.M{"scenario": "ungated Subscribe racing Close", "trace": jb.TraceStrings(r.Trace)})
+			continue
+		}
 		i := idx[r.Trace]
 		key := strings.ReplaceAll(strings.Map(func(c rune) rune {
 			if c >= 'a' && c <= 'z' || c >= 'A' && c <= 'Z' || c == ' ' {
